@@ -28,6 +28,8 @@ SCHEMA_MAIN = """<schema extends="base1.xml base2.xml">
   <multikey name="kb" datatype="vf.dtsupport.counted_int"/>
   <multisection type="ta" name="*" attribute="tas"/>
   <section type="mapping" name="*" attribute="map"/>
+  <abstracttype name="ax"/>
+  <multisection type="ax" name="*" attribute="axs"/>
 </schema>
 """
 SCHEMA_BASE1 = """<schema>
@@ -88,7 +90,8 @@ def workdir():
         # two components defining the same type name; the first one is invalid further down (it re-declares
         # a type of the application schema), so importing it fails after its first type was read
         for pk, body in (('vfc19b1', '<sectiontype name="tq"/><sectiontype name="ta"/>'),
-                         ('vfc19b2', '<sectiontype name="tq"><key name="kq"/></sectiontype>')):
+                         ('vfc19b2', '<sectiontype name="tq"><key name="kq"/></sectiontype>'),
+                         ('vfc19impl', '<sectiontype name="ti" implements="ax"><key name="ki"/></sectiontype>')):
             os.makedirs(os.path.join(d, pk))
             open(os.path.join(d, pk, '__init__.py'), 'w').write('')
             open(os.path.join(d, pk, 'component.xml'), 'w').write('<component>%s</component>' % body)
@@ -252,7 +255,7 @@ class C19(Harness):
 
     def units(self, tier):
         us = []
-        for scen in ('schema', 'c1', 'c2', 'c1-file', 'stringio', 'schema-twice', 'c3', 'c4', 'c1-twice', 'c5-twice'):
+        for scen in ('schema', 'c1', 'c2', 'c1-file', 'stringio', 'schema-twice', 'c3', 'c4', 'c1-twice', 'c5-twice', 'c6-sameschema'):
             for kind in ('none', 'read', 'open', 'stream', 'datatype', 'section'):
                 us.append({'scenario': scen, 'kind': kind})
         return us
@@ -327,6 +330,25 @@ class C19(Harness):
                         twice_cfg = ('ok', [tuple(x) for x in P.walk(cfg2)[3][:3]])
                     except Exception as e:
                         twice_cfg = ('second-load-on-reused-config-loader-failed', type(e).__name__)
+                    if first is not None:
+                        raise first
+                elif scen == 'c6-sameschema':
+                    # ONE schema object, a fresh loader per load: a load that %import-s an implementer of an
+                    # abstract type of the schema and fails further down, then the same import again
+                    schema = ZConfig.loadSchema(os.path.join(d, 'schema.xml'))
+                    first = None
+                    try:
+                        ZConfig.loadConfigFile(schema, io.StringIO('ka 1\n%import vfc19impl\n<ti/>\n<nosuchtype/>\n'),
+                                               'file:///m/one.conf')
+                    except (Injected, OSError, ZConfig.ConfigurationError) as e:
+                        first = e
+                    tr.disarm()
+                    try:
+                        cfg2, _ = ZConfig.loadConfigFile(schema, io.StringIO('%import vfc19impl\n<ti/>\nkd y\nkc x\n'),
+                                                         'file:///m/two.conf')
+                        twice_cfg = ('ok', [tuple(x) for x in P.walk(cfg2)[3][:3]])
+                    except Exception as e:
+                        twice_cfg = ('second-load-on-the-same-schema-failed', type(e).__name__)
                     if first is not None:
                         raise first
                 elif scen == 'c1-twice':
